@@ -87,21 +87,21 @@ def run(ctx):
         name = "%s-k%dd%dm%d" % ((be,) + tr)
         try:
             lib = release_lib(be, tr)
-            exe = build.build_prog("c11", ["harness/c11.c", "ref/ref.c"], lib, opt="-O1", cfg_dep=True)
+            exe = build.build_prog("c11", ["harness/c11.c", "harness/cpp_session.cpp", "ref/ref.c"], lib, opt="-O1", cfg_dep=True)
         except build.BuildError as e:
             ctx.fail("build-error:" + name, str(e)[-600:])
             continue
         ctx.configs.append(lib["desc"])
-        groups = [["aead", f] for f in range(5)] + [["mac"], ["prng"]]
+        groups = [["aead", f] for f in range(5)] + [["mac"], ["prng"], ["cpp"]]
         if tr != D:
-            groups = [["aead", 2], ["prng"]]          # share counts only matter for the masked code and its random source
+            groups = [["aead", 2], ["prng"], ["cpp"]]          # share counts only matter for the masked code and its random source
         for g in groups:
             jobs.append((exe, g, name))
     if t:
         lib = release_lib("asm", D, cc="clang")
-        exe = build.build_prog("c11", ["harness/c11.c", "ref/ref.c"], lib, opt="-O1", cfg_dep=True)
+        exe = build.build_prog("c11", ["harness/c11.c", "harness/cpp_session.cpp", "ref/ref.c"], lib, opt="-O1", cfg_dep=True)
         ctx.configs.append(lib["desc"])
-        for g in [["aead", f] for f in range(5)] + [["mac"], ["prng"]]:
+        for g in [["aead", f] for f in range(5)] + [["mac"], ["prng"], ["cpp"]]:
             jobs.append((exe, g, "asm-clang"))
     jobs.sort(key=lambda j: 0 if j[1] == ["aead", 4] else 1)
     common.parallel(lambda j: valgrind_run(ctx, j[0], j[1], j[2]), jobs)
